@@ -379,7 +379,7 @@ func (r *rqRig) probe(running bool) vmap {
 	if running {
 		n0 := atomic.LoadInt64(&r.mon.nblocks)
 		progress := false
-		for i := 0; i < 60; i++ {
+		for i := 0; i < 200; i++ {
 			time.Sleep(10 * time.Millisecond)
 			if atomic.LoadInt64(&r.mon.nblocks) > n0 {
 				progress = true
